@@ -242,6 +242,7 @@ ODD_EXCS = ('CyclicCause', 'CyclicContext', 'SelfCause', 'Unhashable', 'Unhashab
 
 _threads = {}      # tag -> dict(event=Event, thread=..)
 _saved_streams = []
+_flaky_counts = {}
 
 
 def _decode_bytes(s):
@@ -341,6 +342,13 @@ def do_actions(acts, where):
             thread_action(act[1], where)
         elif kind == 'chdir':
             os.chdir(act[1])
+        elif kind == 'flaky':
+            # ['flaky', n, exc]: raises the n-th time this action is executed in this process (a test that goes wrong in
+            # one --repeat iteration only)
+            _flaky_counts[where] = _flaky_counts.get(where, 0) + 1
+            if _flaky_counts[where] == act[1]:
+                emit('raise', where=where, exc=act[2] if len(act) > 2 else 'AssertionError', flaky=True)
+                raise make_exc(act[2] if len(act) > 2 else 'AssertionError', 'flaky: fails in execution %d only' % act[1])
         elif kind == 'swap':
             # what test fixtures do to the std streams: ['swap', 'save'] (setUp: keep the current streams, install
             # private ones), ['swap', 'restore'] (tearDown/cleanup: put the kept ones back), ['swap', 'leak'] (rebind
@@ -847,6 +855,7 @@ def set_spec(spec, tracer=None, control=None):
     _SPEC = spec
     _WORLD = None
     del _saved_streams[:]
+    _flaky_counts.clear()
     if tracer is not None:
         TRACER = tracer
     CONTROL_DIR = control
